@@ -23,6 +23,8 @@ for pid in ARGS:
         if e["status"] == "fixed":
             fid = e["id"].replace("F-", "")
             cands = [f for f in commit_of if f == fid or (fid.startswith(f) and len(fid) - len(f) <= 0) or f.startswith(fid)]
+            if fid in ("C12g", "C12h"):
+                cands = [f for f in commit_of if f == "C12gh"]
             if fid in ("C17", "C19b"):
                 cands = [f for f in commit_of if f == "C17"]
             if cands:
